@@ -62,7 +62,7 @@ Ltac dhd rest := let k := fresh "k" in let s := fresh "s" in let r := fresh "r" 
   destruct rest as [|[k s] r]; [|destruct k]; cbn in *; try reflexivity; try discriminate; try contradiction; try congruence.
 
 Ltac norm := repeat rewrite <- app_assoc; cbn [app].
-Ltac lens := repeat (rewrite app_length in * || progress cbn [length] in * ).
+Ltac lens := repeat (first [rewrite app_length in * | progress cbn [length] in * ]).
 
 (* ---- ColumnReference ---- *)
 Lemma colref_rt c rest : hdk rest <> KDot ->
@@ -172,7 +172,7 @@ Proof.
     norm. lens.
     pose proof (expr_len o rhs (or_intror Wrhs)) as Lr.
     destruct fuel as [|[|[|f]]]; try lia.
-    rewrite and_cond_S, (pred_cmp_rt o l op r _ Wl Wr ltac:(cbn; discriminate)).
+    rewrite and_cond_S, (pred_cmp_rt o l op r (K KAnd :: r_expr o rhs ++ rest) Wl Wr ltac:(cbn; discriminate)).
     cbn [bind]. rewrite and_loop_S. cbn [K].
     rewrite IH; auto; [|lens; lia].
     cbn [bind]. rewrite and_loop_S. dhd rest.
@@ -207,4 +207,229 @@ Proof.
   rewrite or_cond_S, and_rt; auto; [|lens; lia].
   cbn [bind]. rewrite or_loop_S. cbn [K]. rewrite IHr; auto; [|lens; lia].
   cbn [bind]. rewrite or_loop_S. dhd rest.
+Qed.
+
+(* ---- SetFunctionSpecification / DerivedColumn ---- *)
+Definition starts_value (k : tk) : Prop :=
+  match k with KIdent | KInt | KStr | KTrue | KFalse => True | _ => False end.
+
+Lemma expr_head o e : wf_or o e = true \/ wf_and o e = true ->
+  exists k s tl, r_expr o e = (k, s) :: tl /\ starts_value k.
+Proof.
+  induction e as [v|l op r|[[l op] r] rhs IH|l IHl r IHr]; cbn [r_expr wf_or wf_and]; intros W.
+  - apply vexpr_head. destruct W; auto.
+  - assert (Wl : wf_vexpr o l = true) by (destruct W as [W|W]; apply andb_prop in W; tauto).
+    destruct (vexpr_head o l Wl) as (k & s & tl & -> & Hk). cbn [app]. eauto.
+  - assert (Wl : wf_vexpr o l = true).
+    { destruct W as [W|W]; apply andb_prop in W as [W _]; apply andb_prop in W; tauto. }
+    destruct (vexpr_head o l Wl) as (k & s & tl & -> & Hk). cbn [app]. eauto.
+  - destruct W as [W|W]; try discriminate. apply andb_prop in W as [Wl _].
+    destruct (IHl (or_intror Wl)) as (k & s & tl & -> & Hk). cbn [app]. eauto.
+Qed.
+
+Lemma set_function_none k s tl : starts_value k -> set_function ((k, s) :: tl) = POk (None, (k, s) :: tl).
+Proof. destruct k; cbn; try contradiction; reflexivity. Qed.
+
+Lemma derived_column_rt o p fuel rest : wf_prim o p = true -> ext_or (hdk rest) = false ->
+  length (r_prim o p ++ rest) < fuel ->
+  derived_column fuel (r_prim o p ++ rest) = POk (p, rest).
+Proof.
+  intros W F L. unfold derived_column. destruct p as [|[c|]|c|e]; cbn [wf_prim r_prim] in *; try discriminate.
+  - (* count(col) *) norm. unfold set_function.
+    rewrite (colref_rt c (K KRparen :: rest)) by (cbn; discriminate). reflexivity.
+  - (* count( * ) *) reflexivity.
+  - (* avg(col) *) norm. unfold set_function.
+    rewrite (colref_rt c (K KRparen :: rest)) by (cbn; discriminate). reflexivity.
+  - destruct (expr_head o e (or_introl W)) as (k & s & tl & E & Hk).
+    assert (Ht : r_expr o e ++ rest = (k, s) :: (tl ++ rest)) by (rewrite E; reflexivity).
+    rewrite Ht at 1. rewrite set_function_none by exact Hk. cbn [bind].
+    rewrite or_rt; auto.
+Qed.
+
+Lemma prim_head o p : wf_prim o p = true ->
+  exists k s tl, r_prim o p = (k, s) :: tl /\ k <> KAstrsk.
+Proof.
+  intros W. destruct p as [|[c|]|c|e]; cbn [wf_prim r_prim] in *; try discriminate;
+    try (do 3 eexists; split; [reflexivity|discriminate]).
+  destruct (expr_head o e (or_introl W)) as (k & s & tl & E & Hk).
+  exists k, s, tl. split; auto. intros ->. exact Hk.
+Qed.
+
+Lemma prim_len o p : wf_prim o p = true -> 1 <= length (r_prim o p).
+Proof. intros W. destruct (prim_head o p W) as (k & s & tl & -> & _). cbn. lia. Qed.
+
+(* ---- SelectList ---- *)
+(* what may follow a select list: not an alias, not a comma, nothing that extends an expression *)
+Definition after_items (rest : list ptok) : Prop :=
+  ext_or (hdk rest) = false /\ hdk rest <> KAs /\ hdk rest <> KIdent /\ hdk rest <> KComma.
+
+Lemma select_items_rt o : forall ds, ds <> [] -> forallb (fun d => wf_prim o (dc_prim d)) ds = true ->
+  forall i acc fuel rest, after_items rest -> length (r_items o i ds ++ rest) < fuel ->
+  select_items fuel acc (r_items o i ds ++ rest) = POk (acc ++ ds, rest).
+Proof.
+  induction ds as [|d ds IH]; intros Hne W i acc fuel rest (F & Fas & Fid & Fco) L; try congruence.
+  cbn [forallb] in W. apply andb_prop in W as [Wd Wds].
+  destruct d as [p a]. cbn [dc_prim] in *.
+  cbn [r_items] in *. unfold r_item in *. cbn [dc_prim dc_as] in *.
+  repeat rewrite <- app_assoc in *. cbn [app] in *.
+  pose proof (prim_len o p Wd) as Lp.
+  set (tail := match ds with [] => [] | _ :: _ => K KComma :: r_items o (S i) ds end ++ rest) in *.
+  assert (Hk : tail = rest /\ ds = [] \/ exists d' ds', ds = d' :: ds' /\ tail = K KComma :: r_items o (S i) ds ++ rest).
+  { destruct ds; [left; auto | right; eauto]. }
+  assert (Ftail : ext_or (hdk tail) = false /\ hdk tail <> KAs /\ hdk tail <> KIdent).
+  { destruct Hk as [[-> _]|(d' & ds' & _ & ->)]; cbn; auto. repeat split; discriminate. }
+  destruct Ftail as (Ft1 & Ft2 & Ft3).
+  destruct fuel as [|f]; try lia. rewrite select_items_S.
+  (* the three spellings of the alias *)
+  assert (Alias : forall mid, 
+     (mid = [] /\ a = EmptyString \/ mid = [r_ident a] \/ mid = [K KAs; r_ident a]) ->
+     length (r_prim o p ++ mid ++ tail) < S f ->
+     (let* (prim, r1) := derived_column (S f) (r_prim o p ++ mid ++ tail) in
+      let* r2 :=
+        match r1 with
+        | (KAs, _) :: r => match r with (KIdent, _) :: _ => POk r | _ => PErr EUnexpected end
+        | _ => POk r1
+        end in
+      let '(alias, r3) := match r2 with (KIdent, a) :: r => (a, r) | _ => (EmptyString, r2) end in
+      let acc' := acc ++ [mkDC prim alias] in
+      match r3 with
+      | (KComma, _) :: r4 => select_items f acc' r4
+      | _ => POk (acc', r3)
+      end) = POk (acc ++ {| dc_prim := p; dc_as := a |} :: ds, rest)).
+  { intros mid Hmid Lm.
+    assert (Fm : ext_or (hdk (mid ++ tail)) = false).
+    { destruct Hmid as [[-> _]|[->| ->]]; cbn; auto. }
+    rewrite (derived_column_rt o p (S f) (mid ++ tail) Wd Fm Lm). cbn [bind].
+    assert (Fin : match tail with
+              | (KComma, _) :: r4 => select_items f (acc ++ [mkDC p a]) r4
+              | _ => POk (acc ++ [mkDC p a], tail)
+              end = POk (acc ++ {| dc_prim := p; dc_as := a |} :: ds, rest)).
+    { destruct Hk as [[-> ->]|(d' & ds' & Eds & ->)].
+      - dhd rest.
+      - rewrite IH; auto; try (rewrite Eds; discriminate).
+        + rewrite <- app_assoc. reflexivity.
+        + repeat split; auto.
+        + lens. lia. }
+    destruct Hmid as [[-> ->]|[->| ->]]; cbn [app r_ident K].
+    - destruct tail as [|[k s] tl]; [exact Fin|]. destruct k; try exact Fin; cbn in *; congruence.
+    - exact Fin.
+    - exact Fin. }
+  destruct (String.eqb a "") eqn:Ea.
+  - apply String.eqb_eq in Ea. subst a. apply (Alias []); auto; exact L.
+  - destruct (nth i (o_as o) false); cbn [app] in *.
+    + apply (Alias [K KAs; r_ident a]); auto; exact L.
+    + apply (Alias [r_ident a]); auto; exact L.
+Qed.
+
+Lemma items_head o i d ds : wf_prim o (dc_prim d) = true ->
+  exists k s tl, r_items o i (d :: ds) = (k, s) :: tl /\ k <> KAstrsk.
+Proof.
+  intros W. destruct (prim_head o _ W) as (k & s & tl & E & Hk).
+  cbn [r_items]. unfold r_item. rewrite E. cbn [app]. eauto.
+Qed.
+
+(* the select list of a well-formed SELECT: the asterisk alone, or items none of which is one *)
+Definition wf_items (o : ropts) (ds : list derivedcol) : bool :=
+  match ds with
+  | [] => false
+  | [d] => match dc_prim d with SPStar => String.eqb (dc_as d) "" | p => wf_prim o p end
+  | _ => forallb (fun d => wf_prim o (dc_prim d)) ds
+  end.
+
+Lemma select_list_rt o ds fuel rest : wf_items o ds = true -> after_items rest ->
+  length (r_items o 0 ds ++ rest) < fuel ->
+  select_list fuel (r_items o 0 ds ++ rest) = POk (ds, rest).
+Proof.
+  intros W F L.
+  assert (Star : ds = [mkDC SPStar ""] \/ (ds <> [] /\ forallb (fun d => wf_prim o (dc_prim d)) ds = true)).
+  { destruct ds as [|d [|d2 ds]]; cbn in W; try discriminate.
+    - destruct d as [p a]; cbn [dc_prim dc_as] in *.
+      destruct p; try (right; split; [discriminate|cbn [forallb dc_prim]; rewrite andb_true_r; exact W]).
+      apply String.eqb_eq in W. subst. left; reflexivity.
+    - right. split; [discriminate|exact W]. }
+  destruct Star as [->|[Hne Wf]].
+  - reflexivity.
+  - destruct ds as [|d ds]; try congruence.
+    assert (Wd : wf_prim o (dc_prim d) = true) by (cbn in Wf; apply andb_prop in Wf; tauto).
+    destruct (items_head o 0 d ds Wd) as (k & s & tl & E & Hk).
+    unfold select_list.
+    assert (Ht : r_items o 0 (d :: ds) ++ rest = (k, s) :: (tl ++ rest)) by (rewrite E; reflexivity).
+    rewrite Ht. destruct k; try congruence; rewrite <- Ht;
+      apply (select_items_rt o (d :: ds) Hne Wf 0 [] fuel rest F L).
+Qed.
+
+(* ---- TableName / FromClause ---- *)
+Lemma table_name_rt o n a rest : (a = None -> hdk rest <> KIdent) ->
+  table_name (r_tref o (TRName n a) ++ rest) = POk (TRName n a, rest).
+Proof.
+  intros H. destruct a as [x|]; cbn; [reflexivity|]. specialize (H eq_refl). unfold table_name. dhd rest.
+Qed.
+
+Lemma tref_len o t : join_count t + 1 <= length (r_tref o t).
+Proof.
+  induction t as [n a|l IHl jt r IHr c]; cbn [r_tref join_count]; lens; try lia.
+Qed.
+
+(* parsing the leftmost table name and then looping over the joins of `t` arrives at the loop
+   state "t parsed, `more` ahead" with one unit of fuel used per join *)
+Lemma join_cont o : forall t, wf_tref o t = true -> forall fuel more,
+  hdk more <> KIdent -> ext_or (hdk more) = false ->
+  length (r_tref o t ++ more) < fuel ->
+  (let* (tn, r1) := table_name (r_tref o t ++ more) in join_loop fuel tn r1)
+  = join_loop (fuel - join_count t) t more.
+Proof.
+  induction t as [n a|l IHl jt r IHr c]; cbn [wf_tref join_count]; intros W fuel more Fi Fe L.
+  - rewrite table_name_rt by auto. cbn [bind]. rewrite Nat.sub_0_r. reflexivity.
+  - apply andb_prop in W as [W Wc]. apply andb_prop in W as [W Wr]. apply andb_prop in W as [Wl Wj].
+    destruct r as [rn ra|]; try discriminate.
+    cbn [r_tref] in *. norm. repeat rewrite <- app_assoc in L. cbn [app] in L.
+    pose proof (tref_len o l) as Ll.
+    pose proof (expr_len o c (or_introl Wc)) as Lc.
+    set (more' := r_jt o (join_count l) jt ++ K KJoin :: r_ident rn :: match ra with Some x => [r_ident x] | None => [] end
+                  ++ K KOn :: r_expr o c ++ more) in *.
+    assert (Hm : hdk more' <> KIdent /\ ext_or (hdk more') = false).
+    { unfold more'. destruct jt; try discriminate; cbn; try (split; [discriminate|reflexivity]).
+      destruct (nth (join_count l) (o_inner o) false); cbn; split; try discriminate; reflexivity. }
+    destruct Hm as [Hm1 Hm2].
+    rewrite (IHl Wl fuel more' Hm1 Hm2 L).
+    assert (Lm : length more' = length (r_jt o (join_count l) jt) + 2 + length (match ra with Some x => [r_ident x] | None => [] end) + 1 + length (r_expr o c) + length more).
+    { unfold more'. lens. lia. }
+    rewrite app_length in L.
+    destruct (fuel - join_count l) as [|f] eqn:Ef; try lia.
+    replace (fuel - S (join_count l)) with f by lia.
+    rewrite join_loop_S.
+    assert (Step : forall jt',
+      (match K KJoin :: r_ident rn :: match ra with Some x => [r_ident x] | None => [] end ++ K KOn :: r_expr o c ++ more with
+       | (KJoin, _) :: r1 =>
+           let* (rhs, r2) := table_name r1 in
+           match r2 with
+           | (KOn, _) :: r3 =>
+               let* (cond, r4) := or_cond (S f) r3 in join_loop f (TRJoin l jt' rhs cond) r4
+           | _ => PErr EUnexpected
+           end
+       | _ => PErr EUnexpected
+       end) = join_loop f (TRJoin l jt' (TRName rn ra) c) more).
+    { intros jt'. cbn [K].
+      change (r_ident rn :: match ra with Some x => [r_ident x] | None => [] end ++ (KOn, EmptyString) :: r_expr o c ++ more)
+        with (r_tref o (TRName rn ra) ++ (KOn, EmptyString) :: r_expr o c ++ more).
+      rewrite table_name_rt by (intros _; cbn; discriminate). cbn [bind].
+      rewrite or_rt; auto. lia. }
+    unfold more'. destruct jt; try discriminate; cbn [r_jt app K].
+    + apply Step.
+    + apply Step.
+    + destruct (nth (join_count l) (o_inner o) false); cbn [app K]; apply Step.
+Qed.
+
+Lemma from_rt o t fuel rest : wf_tref o t = true ->
+  hdk rest <> KIdent -> ext_or (hdk rest) = false ->
+  hdk rest <> KLeft -> hdk rest <> KRight -> hdk rest <> KInner -> hdk rest <> KJoin ->
+  length (K KFrom :: r_tref o t ++ rest) < fuel ->
+  from_clause fuel (K KFrom :: r_tref o t ++ rest) = POk (Some t, rest).
+Proof.
+  intros W F1 F2 F3 F4 F5 F6 L. unfold from_clause. cbn [K]. cbn [length] in L.
+  pose proof (tref_len o t) as Lt. rewrite app_length in L.
+  assert (E := join_cont o t W fuel rest F1 F2 ltac:(rewrite app_length; lia)).
+  destruct (table_name (r_tref o t ++ rest)) as [[tn r1]| | |] eqn:Et; cbn [bind] in *;
+    try (destruct (fuel - join_count t) as [|f] eqn:Ef; [lia|]; rewrite join_loop_S in E; revert E; dhd rest).
+  rewrite E. destruct (fuel - join_count t) as [|f] eqn:Ef; try lia. rewrite join_loop_S. dhd rest.
 Qed.
